@@ -68,12 +68,17 @@ def updLen (gaps : List Gap) : Nat → Nat → Nat → List (List UM) → List (
       (getL u1 j').foldl (fun acc m' => if gapOk g m' off then updLen gaps j' m'.off (cl + 1) acc else acc) u1
     else u
 
-/-- the scan of the previous piece's unconfirmed list: remove entries that are too far behind (`ending + gap_max <
-    lowest_offset`) until the first entry at a legal distance is found -/
+/-- `YR_RE_SCAN_LIMIT + YR_MAX_ATOM_LENGTH`: how far before the current candidate a LATER candidate of the same piece can
+    start (candidates arrive in the order of their atoms' end, not of the matches' start) -/
+def window : Nat := 1024 + 4
+
+/-- the scan of the previous piece's unconfirmed list: remove entries that are out of reach for the current and every
+    later candidate (`ending + gap_max + YR_RE_SCAN_LIMIT + YR_MAX_ATOM_LENGTH < lowest_offset`) until the first entry
+    at a legal distance is found -/
 def pruneScan (g : Gap) (lowest o : Nat) : List UM → List UM × Bool
   | [] => ([], false)
   | m :: t =>
-    if m.off + m.len + g.gmax < lowest then pruneScan g lowest o t
+    if m.off + m.len + g.gmax + window < lowest then pruneScan g lowest o t
     else if gapOk g m o then (m :: t, true)
     else
       let (t', found) := pruneScan g lowest o t
